@@ -130,6 +130,8 @@ def run_shard(d):
             res["nontrivial"] += sum(v for k, v in out["stats"]["categories"].items() if k.startswith("('out', '"))
             res["files_checked"] += len(out["got"])
             for kind, what, detail in out["violations"]:
+                if kind in ("content", "unit"):
+                    continue  # the trimmed records themselves are judged by C03/C09/C10 (and by the differential below)
                 res["viol"].append((f"{label}:{kind}", what, dict(scenario=sc, argv=[a for a in out["stats"]["argv"] if not a.startswith("/")], **detail)))
             # differential: without demultiplexing the same records must come out (no trimmed/untrimmed option)
             if sc["final"] is None and not out["violations"]:
